@@ -1,5 +1,6 @@
 /- Driver for the engine model: parses the harness's op lines, prints canonical observations. -/
 import LiteFSVerif.Model.Engine
+import LiteFSVerif.Model.Recovery
 import LiteFSVerif.Driver.Util
 
 namespace LiteFSVerif.Driver.EngineD
@@ -245,6 +246,13 @@ def step (s : Eng) (line : String) : Eng × String :=
        if !ltxSpecOK f then (s, "bad-op") else
        if !s.hasDB then (s, "notfound") else
        if !snapshotPostOK f then (s, "rejected") else run s (receiveTx s f))
+  | "reopen" :: rest =>
+    if !s.opened then (s, "bad-op") else
+    let primary := match rest with | [r] => r == "primary" | _ => s.primary
+    if !s.hasDB then ({ opened := true, primary := primary, compress := s.compress }, "ok") else
+    (match Recovery.openDB { s with primary := primary } with
+     | .ok s' => (s', "ok")
+     | .error m => if m.startsWith "panic" then (s, m) else ({ compress := s.compress }, "err open"))
   | ["import", d] =>
     if !s.opened then (s, "bad-op") else
     (match bytesOf d with
